@@ -450,9 +450,25 @@ func runHist(payload string) string {
 	if len(parts) < 2 || strings.TrimSpace(parts[1]) == "" {
 		return strings.Join(outs, " ; ")
 	}
+	var last []any // the slice the latest batch was spread from: `again` offers that very slice once more
 	for _, op := range strings.Split(parts[1], " ; ") {
 		var ret string
-		if strings.HasPrefix(op, "marshal ") {
+		if strings.HasPrefix(op, "push ") || op == "push" {
+			ret = guard(func() string {
+				last = nil
+				rest := strings.Fields(op)[1:]
+				for len(rest) > 0 {
+					var x V
+					x, rest = parseV(rest)
+					last = append(last, Build(x))
+				}
+				s.Push(last...)
+				return "-"
+			})
+		} else if op == "again" {
+			// what the caller spread into Push is still the caller's: offered again it holds what it held
+			ret = guard(func() string { s.Push(last...); return "-" })
+		} else if strings.HasPrefix(op, "marshal ") {
 			// through the address of the handle, as a caller does: Marshal may replace what the handle points to
 			ret = guard(func() string {
 				in, _ := parseV(strings.Fields(op)[1:])
@@ -615,8 +631,13 @@ func genNest(r *rand.Rand, id string, tier string) string {
 		switch r.Intn(7) {
 		case 0:
 			ops = append(ops, fmt.Sprintf("nnest %d", r.Intn(2)))
+			if r.Intn(3) == 0 {
+				ops = append(ops, "again")
+			}
 		case 1:
-			if r.Intn(2) == 0 {
+			if r.Intn(3) == 0 {
+				ops = append(ops, "again")
+			} else if r.Intn(2) == 0 {
 				ops = append(ops, fmt.Sprintf("rem %d", r.Intn(4))) // taking one element out leaves the others (nested Stacks included) where they are
 			} else {
 				ops = append(ops, "pop")
